@@ -7,6 +7,12 @@ from ..mir import Prov, show
 
 
 def _check(c, rule, prog, fnp, want_atoms, combine, what):
+    if not prog.has_fn(fnp) and "{closure#" in fnp:
+        # the closure of the predicate it belongs to is gone: the predicate no longer has the specified structure (its own
+        # instance says how); reported as a violation of this clause, not as "cannot decide"
+        parent = prog.fn(fnp.split("::{closure#")[0])
+        c.inst(rule, what, False, "%s does not exist any more: the predicate was restructured" % fnp, parent.where(), fnp)
+        return [], None
     f = prog.fn(fnp)
     atoms, table = bool_fn_table(f.body)
     ok = table is not None and sorted(atoms) == sorted(want_atoms)
